@@ -143,7 +143,9 @@ CHECKS = [
         "last n windows for every record/rotate schedule; Export/Import reproduce an equal histogram. Correspondence on quantile grids, merge "
         "splits, window schedules, Export/Import and BSON/JSON round trips, with oracles that use sorted inputs and point functions only.",
         "Trusted: as C12. The float step int64(q/100*n+0.5) is outside the model: the harness computes the rank with the same Go expression and "
-        "exactly in rationals and drops (and counts) rounding ties. BSON/JSON marshalling libraries are exercised, not modelled.",
+        "exactly in rationals and drops (and counts) rounding ties. BSON/JSON marshalling libraries are exercised, not modelled. Known findings "
+        "(reported as KNOWN-FINDING when their fixed witnesses reproduce them): C13-quantile-tie (the float64 rank of ValueAtQuantile on an "
+        "exact rounding tie is one too low) and C13-mean-overflow (Mean sums count*value in a wrapping int64).",
         "Coq proof (order statistics over the cumulative scan, ring invariant) + differential correspondence",
         "DESIGN.md section 8 C13"),
     chk("C02",
